@@ -1,7 +1,487 @@
-//! C02 — harness not built yet.
+//! C02 — the chosen segmentation is a minimum-cost lattice path; totals are prefix sums.
 use crate::common::*;
+use crate::dictutil::*;
+use serde_json::{json, Value};
+use sudachi::analysis::Node;
+use sudachi::analysis::lattice::Lattice;
+use sudachi::analysis::node::LatticeNode;
+use sudachi::analysis::stateful_tokenizer::StatefulTokenizer;
+use sudachi::analysis::Mode;
+use sudachi::dic::connect::ConnectionMatrix;
+use sudachi::dic::word_id::WordId;
 
-pub fn run(_args: &Args) {
-    eprintln!("no harness for C02 yet");
-    std::process::exit(2);
+#[derive(Clone, Debug)]
+pub struct N {
+    pub b: usize,
+    pub e: usize,
+    pub l: u16,
+    pub r: u16,
+    pub c: i16,
+}
+
+pub struct Case {
+    pub kind: &'static str,
+    pub nl: usize,
+    pub nr: usize,
+    /// raw: as stored, read through ConnectionMatrix::index; canonical: data[r * nl + l] = cost(left=l, right=r)
+    pub raw_layout: bool,
+    pub data: Vec<i16>,
+    pub len: usize,
+    pub nodes: Vec<N>,
+}
+
+/// what the implementation did: None = panic
+pub type Impl = Option<(Vec<i32>, Option<(i32, Vec<(u16, u16)>, Vec<i32>)>)>;
+
+fn coq_node(n: &N) -> String {
+    format!("mkNode {}%nat {}%nat {} {} {}", n.b, n.e, cn(n.l), cn(n.r), cz(n.c as i64))
+}
+
+pub fn term(checked: bool, c: &Case, im: &Impl) -> String {
+    let impl_s = match im {
+        None => "None".to_string(),
+        Some((costs, eos)) => {
+            let e = match eos {
+                None => "None".to_string(),
+                Some((ec, path, totals)) => format!(
+                    "(Some ({}, {}, {}))",
+                    cz(*ec as i64),
+                    clist(path.iter().map(|(a, b)| format!("({}%nat, {}%nat)", a, b))),
+                    clist(totals.iter().map(|t| cz(*t as i64)))
+                ),
+            };
+            format!("(Some ({}, {}))", clist(costs.iter().map(|t| cz(*t as i64))), e)
+        }
+    };
+    format!(
+        "check_lattice {} {} {} {} {} {}%nat {} {}",
+        cbool(checked),
+        cbool(c.raw_layout),
+        cnu(c.nl),
+        cnu(c.nr),
+        clist(c.data.iter().map(|x| cz(*x as i64))),
+        c.len,
+        clist(c.nodes.iter().map(coq_node)),
+        impl_s
+    )
+}
+
+fn desc(c: &Case) -> Value {
+    json!({"kind": c.kind, "num_left": c.nl, "num_right": c.nr, "raw_layout": c.raw_layout, "data": c.data, "len": c.len,
+           "nodes": c.nodes.iter().map(|n| json!([n.b, n.e, n.l, n.r, n.c])).collect::<Vec<_>>()})
+}
+
+fn case_from(v: &Value) -> Case {
+    Case {
+        kind: "replay",
+        nl: v["num_left"].as_u64().unwrap() as usize,
+        nr: v["num_right"].as_u64().unwrap() as usize,
+        raw_layout: v["raw_layout"].as_bool().unwrap_or(true),
+        data: v["data"].as_array().unwrap().iter().map(|x| x.as_i64().unwrap() as i16).collect(),
+        len: v["len"].as_u64().unwrap() as usize,
+        nodes: v["nodes"]
+            .as_array()
+            .unwrap()
+            .iter()
+            .map(|n| N { b: n[0].as_u64().unwrap() as usize, e: n[1].as_u64().unwrap() as usize, l: n[2].as_u64().unwrap() as u16, r: n[3].as_u64().unwrap() as u16, c: n[4].as_i64().unwrap() as i16 })
+            .collect(),
+    }
+}
+
+/// run the public Lattice API on the case (unit level)
+pub fn run_lattice(c: &Case, reuse: &mut Lattice) -> Impl {
+    let bytes: Vec<u8> = c.data.iter().flat_map(|x| x.to_le_bytes()).collect();
+    // the same Lattice object is reused for all cases (as a tokenizer does); after a panic it is replaced
+    let mut lat = std::mem::take(reuse);
+    let r = catch(|| {
+        let conn = ConnectionMatrix::from_offset_size(&bytes, 0, c.nl, c.nr).unwrap();
+        lat.reset(c.len);
+        let mut costs = vec![];
+        for (k, n) in c.nodes.iter().enumerate() {
+            let node = Node::new(n.b as u16, n.e as u16, n.l, n.r, n.c, WordId::new(0, k as u32));
+            costs.push(lat.insert(node, &conn));
+        }
+        let eos = match lat.connect_eos(&conn) {
+            Err(_) => None,
+            Ok(()) => {
+                let (_, _, ec) = lat.verif_eos().unwrap();
+                let mut ids = vec![];
+                lat.fill_top_path(&mut ids);
+                ids.reverse();
+                let mut path = vec![];
+                let mut totals = vec![];
+                for id in ids {
+                    let (_, t) = lat.node(id);
+                    path.push((id.end(), id.index()));
+                    totals.push(t);
+                }
+                Some((ec, path, totals))
+            }
+        };
+        *reuse = lat;
+        (costs, eos)
+    });
+    r.ok()
+}
+
+/// independent oracle: exact dynamic programme in i64 over the same candidates (None = no covering chain)
+pub fn oracle(c: &Case) -> (Option<i64>, bool) {
+    let conn = |l: u16, r: u16| -> i64 { c.data[(r as usize) * c.nl + (l as usize)] as i64 };
+    // best[i] = per node ending at i: (right id, total)
+    let mut rows: Vec<Vec<(u16, i64)>> = vec![vec![]; c.len + 1];
+    rows[0].push((0, 0));
+    let mut overflow = false;
+    let mut order: Vec<&N> = c.nodes.iter().collect();
+    order.sort_by_key(|n| n.b);
+    for n in order {
+        let mut best: Option<i64> = None;
+        for (r, t) in &rows[n.b] {
+            let v = t + conn(*r, n.l) + n.c as i64;
+            if best.map_or(true, |b| v < b) {
+                best = Some(v);
+            }
+        }
+        if let Some(b) = best {
+            if b >= i32::MAX as i64 || b < i32::MIN as i64 {
+                overflow = true;
+            }
+            rows[n.e].push((n.r, b));
+        }
+    }
+    let mut best: Option<i64> = None;
+    for (r, t) in &rows[c.len] {
+        let v = t + conn(*r, 0);
+        if best.map_or(true, |b| v < b) {
+            best = Some(v);
+        }
+    }
+    if let Some(b) = best {
+        if b >= i32::MAX as i64 || b < i32::MIN as i64 {
+            overflow = true;
+        }
+    }
+    (best, overflow)
+}
+
+fn cost_val(rng: &mut Rng) -> i16 {
+    match rng.below(10) {
+        0 => 32767,
+        1 => -32768,
+        2 => 0,
+        3 => rng.range(-3, 3) as i16,
+        _ => rng.range(-20000, 20000) as i16,
+    }
+}
+
+fn gen_unit(rng: &mut Rng) -> Case {
+    let nl = 1 + rng.below(5) as usize;
+    let nr = if rng.chance(1, 2) { nl } else { 1 + rng.below(5) as usize };
+    let data: Vec<i16> = (0..nl * nr).map(|_| cost_val(rng)).collect();
+    let len = if rng.chance(1, 10) { 9 + rng.below(12) as usize } else { 1 + rng.below(8) as usize };
+    let mut nodes = vec![];
+    let nn = rng.below(4 * len as u64 + 2) as usize;
+    for _ in 0..nn {
+        let b = rng.below(len as u64) as usize;
+        let e = if rng.chance(1, 2) { b + 1 } else { b + 1 + rng.below((len - b) as u64) as usize };
+        nodes.push(N { b, e, l: rng.below(nr as u64) as u16, r: rng.below(nl as u64) as u16, c: cost_val(rng) });
+        if rng.chance(1, 8) {
+            // homograph: same span, other ids / cost
+            nodes.push(N { b, e, l: rng.below(nr as u64) as u16, r: rng.below(nl as u64) as u16, c: cost_val(rng) });
+        }
+    }
+    if rng.chance(2, 3) {
+        // make sure the text is coverable: a spine of short words
+        let mut p = 0;
+        while p < len {
+            let e = usize::min(len, p + 1 + rng.below(2) as usize);
+            nodes.push(N { b: p, e, l: rng.below(nr as u64) as u16, r: rng.below(nl as u64) as u16, c: cost_val(rng) });
+            p = e;
+        }
+    }
+    nodes.sort_by_key(|n| n.b); // stable: insertion order by begin, as Lattice::insert requires
+    Case { kind: "unit", nl, nr, raw_layout: true, data, len, nodes }
+}
+
+fn check_and_emit(sink: &mut Sink, c: &Case, im: &Impl, checked: bool, extra_fail: Option<String>) {
+    let (opt, overflow) = oracle(c);
+    let coverable = opt.is_some();
+    sink.tag(c.kind);
+    sink.tag(if coverable { "coverable" } else { "not_coverable" });
+    if c.nl != c.nr {
+        sink.tag("non_square_matrix");
+    }
+    if c.data.iter().any(|x| *x < 0) || c.nodes.iter().any(|n| n.c < 0) {
+        sink.tag("negative_costs");
+    }
+    let nontrivial = coverable && c.nodes.len() >= 3;
+    let id = sink.case(term(checked, c, im), desc(c), nontrivial);
+    if let Some(f) = extra_fail {
+        sink.fail(id, &f, "");
+    }
+    // Rust-side oracle (independent of the Coq model)
+    if overflow {
+        sink.fail(id, "exact path cost leaves the i32 range", "i32_cost_overflow");
+        return;
+    }
+    match im {
+        None => sink.fail(id, "implementation panicked although all sums fit in i32", ""),
+        Some((_, eos)) => match (opt, eos) {
+            (None, None) => {}
+            (Some(o), Some((ec, path, totals))) => {
+                if o != *ec as i64 {
+                    sink.fail(id, &format!("EOS cost {} but the minimum over all covering chains is {}", ec, o), "");
+                } else if path.len() != totals.len() {
+                    sink.fail(id, "path / totals length mismatch", "");
+                }
+            }
+            (Some(o), None) => sink.fail(id, &format!("EosBosDisconnect although a covering chain of cost {} exists", o), ""),
+            (None, Some((ec, _, _))) => sink.fail(id, &format!("EOS cost {} although no covering chain exists", ec), ""),
+        },
+    }
+}
+
+// ---------------------------------------------------------------- pipeline level
+fn gen_text(rng: &mut Rng, surfaces: &[String]) -> String {
+    let extra = ["ア", "イ", "カ", "ー", "1", "2", "0", ".", "a", "B", " ", "漢", "字", "、", "。", "ｶﾞ", "㍿", "👍", "é", "\u{3099}"];
+    let n = 1 + rng.below(7);
+    let mut s = String::new();
+    for _ in 0..n {
+        if rng.chance(3, 5) && !surfaces.is_empty() {
+            s.push_str(rng.pick(surfaces).as_str());
+        } else {
+            s.push_str(*rng.pick(&extra[..]));
+        }
+    }
+    s
+}
+
+fn run_pipeline(sink: &mut Sink, rng: &mut Rng, args: &Args, ndicts: usize, ntexts: usize, checked: bool) {
+    let res = format!("{}/sudachi/tests/resources", repo());
+    let lex = std::fs::read_to_string(format!("{}/lex.csv", res)).unwrap();
+    for d in 0..ndicts {
+        let nl = 2 + rng.below(9) as usize; // dimension indexed by right ids of the left word
+        let nr = if rng.chance(1, 2) { nl } else { 2 + rng.below(9) as usize };
+        // canonical cost table: cost(left = l, right = r)
+        let mut tbl = vec![0i16; nl * nr];
+        for x in tbl.iter_mut() {
+            *x = if rng.chance(1, 12) { cost_val(rng) } else { rng.range(-3000, 3000) as i16 };
+        }
+        let mut matrix = format!("{} {}\n", nl, nr);
+        for l in 0..nl {
+            for r in 0..nr {
+                matrix.push_str(&format!("{} {} {}\n", l, r, tbl[r * nl + l]));
+            }
+        }
+        // lexicon: rows of the test lexicon with random in-range ids and costs
+        let mut rows = vec![];
+        let mut surfaces = vec![];
+        for line in lex.lines() {
+            let mut f: Vec<String> = line.split(',').map(|s| s.to_string()).collect();
+            if f.len() < 18 {
+                continue;
+            }
+            if f[1] != "-1" {
+                // left id of a word is looked up as `right` argument (< nr); right id as `left` argument (< nl).
+                // The builder validates them against the opposite dimensions (a C06/C20 matter), so stay below both.
+                f[1] = format!("{}", rng.below(usize::min(nl, nr) as u64));
+                f[2] = format!("{}", rng.below(usize::min(nl, nr) as u64));
+                f[3] = format!("{}", if rng.chance(1, 10) { cost_val(rng) as i64 } else { rng.range(-2000, 12000) });
+                if f[3] == "-32768" {
+                    f[3] = "-32767".into(); // i16::MIN asks the builder for an automatic cost
+                }
+                surfaces.push(f[0].clone());
+            }
+            rows.push(f.join(","));
+        }
+        let lex_csv = rows.join("\n");
+        let dir = args.work.join(format!("res{}", d));
+        let oov_l = rng.below(usize::min(nl, nr) as u64);
+        let oov_r = rng.below(usize::min(nl, nr) as u64);
+        let cfg = json!({
+            "characterDefinitionFile": "char.def",
+            "inputTextPlugin": [{"class": "com.worksap.nlp.sudachi.DefaultInputTextPlugin"}],
+            "oovProviderPlugin": [{"class": "com.worksap.nlp.sudachi.SimpleOovPlugin",
+                "oovPOS": ["名詞", "普通名詞", "一般", "*", "*", "*"], "leftId": oov_l, "rightId": oov_r, "cost": rng.range(-2000, 20000)}],
+        });
+        let dict = match build_dictionary(&dir, &res, &matrix, &lex_csv, &[], &cfg) {
+            Ok(d) => d,
+            Err(e) => {
+                let id = sink.case_rust_only(json!({"kind": "pipeline-dict", "matrix": matrix, "lex": lex_csv, "error": e}), false);
+                sink.fail(id, &format!("generated dictionary did not build/load: {}", e), "");
+                continue;
+            }
+        };
+        let mut tok = StatefulTokenizer::new(&dict, Mode::C);
+        for _ in 0..ntexts {
+            let text = gen_text(rng, &surfaces);
+            let r = catch(|| {
+                tok.reset().push_str(&text);
+                if tok.do_tokenize().is_err() {
+                    return None;
+                }
+                let lat = tok.verif_lattice();
+                let size = lat.verif_size();
+                let mut all = vec![];
+                for end in 0..size {
+                    for (i, n) in lat.verif_nodes(end).into_iter().enumerate() {
+                        all.push((end, i, n));
+                    }
+                }
+                let eos = lat.verif_eos();
+                let nchars = tok.verif_input().current_chars().len();
+                let mut ml = sudachi::analysis::mlist::MorphemeList::empty(&dict);
+                ml.collect_results(&mut tok).unwrap();
+                let morph: Vec<(u32, usize, i32)> = ml.iter().map(|m| (m.word_id().as_raw(), m.end_c(), m.total_cost())).collect();
+                Some((all, eos, nchars, morph))
+            });
+            let (all, eos, nchars, morph) = match r {
+                Ok(Some(x)) => x,
+                Ok(None) => continue,
+                Err(p) => {
+                    let id = sink.case_rust_only(json!({"kind": "pipeline", "text": text, "matrix": matrix, "lex": lex_csv}), false);
+                    sink.fail(id, &format!("tokenization panicked: {}", p), "");
+                    tok = StatefulTokenizer::new(&dict, Mode::C);
+                    continue;
+                }
+            };
+            if nchars == 0 {
+                continue;
+            }
+            // nodes in insertion order by begin (stable)
+            let mut order: Vec<usize> = (0..all.len()).collect();
+            order.sort_by_key(|k| all[*k].2.begin);
+            let nodes: Vec<N> = order.iter().map(|k| { let n = &all[*k].2; N { b: n.begin, e: n.end, l: n.left_id, r: n.right_id, c: n.cost } }).collect();
+            let costs: Vec<i32> = order.iter().map(|k| all[*k].2.total_cost).collect();
+            // the implementation's path: follow the back pointers from EOS
+            let mut fail = None;
+            let mut path = vec![];
+            if let Some((e, i, _)) = eos {
+                let (mut ce, mut ci) = (e, i);
+                loop {
+                    path.push((ce, ci));
+                    let n = all.iter().find(|x| x.0 == ce as usize && x.1 == ci as usize).map(|x| &x.2);
+                    match n {
+                        None => {
+                            fail = Some("dangling back pointer".to_string());
+                            break;
+                        }
+                        Some(n) => {
+                            if n.prev_end == 0 {
+                                break;
+                            }
+                            ce = n.prev_end;
+                            ci = n.prev_index;
+                        }
+                    }
+                    if path.len() > all.len() {
+                        fail = Some("back pointers do not reach BOS".to_string());
+                        break;
+                    }
+                }
+                path.reverse();
+            }
+            // morphemes (mode C, no path rewriting) must be that path, and report its stored totals
+            let pnodes: Vec<&sudachi::analysis::lattice::VerifNode> = path.iter().filter_map(|(e, i)| all.iter().find(|x| x.0 == *e as usize && x.1 == *i as usize).map(|x| &x.2)).collect();
+            if fail.is_none() && (pnodes.len() != morph.len() || pnodes.iter().zip(morph.iter()).any(|(n, m)| n.word_id != m.0)) {
+                fail = Some(format!("morphemes {:?} are not the lattice's best path", morph));
+            }
+            // word parameters of dictionary nodes come from the lexicon
+            for (_, _, n) in &all {
+                let wid = WordId::from_raw(n.word_id);
+                if !wid.is_oov() {
+                    let (l, r, c) = dict.lexicon().get_word_param(wid);
+                    if (l as u16, r as u16, c) != (n.left_id, n.right_id, n.cost) && fail.is_none() {
+                        fail = Some(format!("node for word {:?} carries ({},{},{}) but the lexicon says ({},{},{})", wid, n.left_id, n.right_id, n.cost, l, r, c));
+                    }
+                }
+            }
+            let totals: Vec<i32> = morph.iter().map(|m| m.2).collect();
+            let c = Case { kind: "pipeline", nl, nr, raw_layout: false, data: tbl.clone(), len: nchars, nodes };
+            let im: Impl = Some((costs, eos.map(|(_, _, ec)| (ec, path.clone(), totals))));
+            // the model's row order equals the implementation's (both by begin, then insertion), so (end, index) agree
+            let mut d = desc(&c);
+            d["text"] = json!(text);
+            check_and_emit(sink, &c, &im, checked, fail);
+        }
+        let _ = std::fs::remove_dir_all(&dir);
+    }
+}
+
+pub fn run(args: &Args) {
+    let checked = cfg!(debug_assertions);
+    let mut sink = Sink::new("C02", &args.out, &["Model.Lattice", "Model.LatticeCheck"], args.seed, &args.tier);
+    sink.shard_size = 60;
+    sink.rule("unit: random connection matrices (1..5 x 1..5, non-square, i16 extremes, negative) x random candidate sets over 1..20 positions (overlaps, homographs, gaps, unreachable starts) through the public Lattice API; pipeline: dictionaries compiled from the test lexicon with random ids/costs and random n x m matrices, random texts, every lattice node read through the verif hook; non-trivial = a covering chain exists and >= 3 candidates; distinct by Coq term");
+    if let Some(p) = &args.replay {
+        let v: Value = serde_json::from_str(&std::fs::read_to_string(p).unwrap()).unwrap();
+        let c = case_from(&v["case"]);
+        let mut lat = Lattice::default();
+        let im = run_lattice(&c, &mut lat);
+        println!("case: {}", v["case"]);
+        println!("implementation (public Lattice API): {:?}", im);
+        println!("independent i64 oracle (min cost, overflow): {:?}", oracle(&c));
+        check_and_emit(&mut sink, &c, &im, checked, None);
+        sink.finish();
+        return;
+    }
+    let mut rng = Rng::new(args.seed);
+    let mut lat = Lattice::default();
+    // directed corpus
+    for c in corpus() {
+        let im = run_lattice(&c, &mut lat);
+        check_and_emit(&mut sink, &c, &im, checked, None);
+    }
+    for _ in 0..args.n(700, 12000) {
+        let c = gen_unit(&mut rng);
+        let im = run_lattice(&c, &mut lat);
+        check_and_emit(&mut sink, &c, &im, checked, None);
+    }
+    run_pipeline(&mut sink, &mut rng, args, args.n(6, 60), args.n(40, 100), checked);
+    known_overflow(&mut sink);
+    sink.finish();
+}
+
+fn corpus() -> Vec<Case> {
+    let mk = |nl, nr, data: Vec<i16>, len, nodes: Vec<(usize, usize, u16, u16, i16)>| Case {
+        kind: "corpus",
+        nl,
+        nr,
+        raw_layout: true,
+        data,
+        len,
+        nodes: {
+            let mut v: Vec<N> = nodes.into_iter().map(|(b, e, l, r, c)| N { b, e, l, r, c }).collect();
+            v.sort_by_key(|n| n.b);
+            v
+        },
+    };
+    vec![
+        // EOS connection decides
+        mk(2, 2, vec![0, 0, 1000, -1000], 1, vec![(0, 1, 0, 0, 5), (0, 1, 0, 1, 5)]),
+        // BOS connection decides (non-square 2 x 3)
+        mk(2, 3, vec![0, 7, 50, 7, -50, 7], 1, vec![(0, 1, 1, 0, 0), (0, 1, 2, 0, 0)]),
+        // negative costs make the longer chain cheaper
+        mk(1, 1, vec![-10], 3, vec![(0, 3, 0, 0, 0), (0, 1, 0, 0, -1), (1, 2, 0, 0, -1), (2, 3, 0, 0, -1)]),
+        // unreachable middle
+        mk(1, 1, vec![0], 3, vec![(0, 1, 0, 0, 1), (2, 3, 0, 0, 1)]),
+        // ties
+        mk(1, 1, vec![0], 2, vec![(0, 1, 0, 0, 1), (0, 1, 0, 0, 1), (1, 2, 0, 0, 1), (0, 2, 0, 0, 2)]),
+    ]
+}
+
+/// the recorded finding: path cost overflows i32 at cost extremes x > 32768 tokens (implementation only; too large for vm_compute)
+fn known_overflow(sink: &mut Sink) {
+    let mut lat = Lattice::default();
+    let len = 33000usize;
+    let c = Case { kind: "overflow", nl: 1, nr: 1, raw_layout: true, data: vec![32767], len, nodes: (0..len).map(|i| N { b: i, e: i + 1, l: 0, r: 0, c: 32767 }).collect() };
+    let im = run_lattice(&c, &mut lat);
+    let (opt, overflow) = oracle(&c);
+    let id = sink.case_rust_only(json!({"kind": "overflow", "num_left": 1, "num_right": 1, "data": [32767], "len": len, "nodes": "33000 one-character words of cost 32767"}), true);
+    let ok = match (&im, opt) {
+        (Some((_, Some((ec, _, _)))), Some(o)) => *ec as i64 == o,
+        _ => false,
+    };
+    if overflow && !ok {
+        sink.fail(id, &format!("33000 tokens of cost 32767 with connection cost 32767: exact cost {:?}, implementation {}", opt, match &im { None => "panicked (attempt to add with overflow)".to_string(), Some((_, e)) => format!("{:?}", e.as_ref().map(|x| x.0)) }), "i32_cost_overflow");
+    }
 }
